@@ -64,6 +64,8 @@ def instant_ms(lit, tzname):
         tz = None
     else:
         d = _dt.datetime.fromisoformat(lit['$dt'])
+        if lit.get('fold'):
+            d = d.replace(fold=1)
         tz = lit.get('tz')
     if tz is None:
         d = d.replace(tzinfo=zoneinfo.ZoneInfo(tzname or 'UTC'))
